@@ -4,7 +4,13 @@
 //!   c15 hash <pw> <salt-hex> <spin>          private convert_password_to_hash through the cfg(umya_verif) hook
 //!   c15 set <kind> <pw> <pre>                 the real public setter on a real workbook, save to memory, reload;
 //!                                             reply = the salt-independent part; emits a derived `stored` line
-//!   c15 stored <kind> <pw> <pre> <salt-b64>   the salt-dependent observation (memory, saved XML attributes, reloaded)
+//!   c15 stored <kind> <pw> <pre> <salt-b64> <part>
+//!                                             the salt-dependent observation (memory, saved XML attributes, reloaded) and
+//!                                             the characters of the real saved part that holds the protection element
+//!                                             (xl/worksheets/sheet1.xml | xl/workbook.xml, hex of UTF-8): the driver runs the
+//!                                             XML 1.0 reader, root.kid?, the model's set_attributes on them and renders the
+//!                                             model's element; this side states what must come out (`part=` field)
+//!   c15 stored <kind> <pw> <pre> <salt-b64>   the older form without the part (replay of old evidence lines)
 //!
 //! Oracle (independent of the model): the hash recomputed from the standard with the sha2 crate,
 //! wrong password differs, salt fresh between two calls, no legacy attribute, no clear password in
@@ -172,6 +178,34 @@ fn xml_attrs(parts: &[(String, Vec<u8>)], kind: &str) -> Option<Vec<(String, Str
     Some(at.into_iter().filter(|a| ns.contains(&a.0.as_str())).collect())
 }
 
+fn part_name(kind: &str) -> &'static str {
+    if kind == "sheet" { "xl/worksheets/sheet1.xml" } else { "xl/workbook.xml" }
+}
+
+/// the characters of the part that carries the protection element of `kind`
+fn part_of(parts: &[(String, Vec<u8>)], kind: &str) -> Option<Vec<u8>> {
+    parts.iter().find(|p| p.0 == part_name(kind)).map(|p| p.1.clone())
+}
+
+/// what the driver has to find in the part: the record read = the getters after the setter, the element read
+/// = the model's element (tree and characters), and the options `prepare` switched on (outside the C15 model)
+fn part_expect(kind: &str, mem: &Obs, post: u32) -> String {
+    // the switches `prepare` and `post_flags` have set, in the writer's attribute order (a switch is written once it was set)
+    const SHEET: [&str; 16] = ["sheet", "objects", "deleteRows", "insertColumns", "deleteColumns", "insertHyperlinks", "autoFilter", "scenarios", "formatCells", "formatColumns", "insertRows", "formatRows", "pivotTables", "selectLockedCells", "selectUnlockedCells", "sort"];
+    const BOOK: [&str; 3] = ["lockRevision", "lockStructure", "lockWindows"];
+    let all = |names: &[&str], v: u32| names.iter().map(|n| format!("{}={}", n, v)).collect::<Vec<_>>().join(",");
+    let flags = match (kind == "sheet", post) {
+        (true, 1) => all(&SHEET, 0),
+        (true, 2) | (true, 4) => all(&SHEET, 1),
+        (true, _) => "sheet=1,objects=1".to_string(),
+        (false, 1) => all(&BOOK, 0),
+        (false, 2) | (false, 4) => all(&BOOK, 1),
+        (false, 3) if kind == "revisions" => "lockRevision=1,lockStructure=1".to_string(),
+        (false, _) => "lockStructure=1".to_string(),
+    };
+    format!("read:{};tree:same;chars:found;flags:{}", mem.show(), flags)
+}
+
 fn xml_escape(s: &str) -> String {
     s.replace('&', "&amp;").replace('<', "&lt;").replace('>', "&gt;").replace('"', "&quot;").replace('\'', "&apos;")
 }
@@ -180,6 +214,7 @@ struct SetResult {
     mem: Obs,
     xml: Vec<(String, String)>,
     reload: Obs,
+    part: Vec<u8>,
 }
 
 /// run setter → observe → save → scan → reload → observe, evaluating the oracle on the way
@@ -231,6 +266,13 @@ fn run_set(out: &mut Out, line: &str, kind: &str, pw: &str, pre: u32) -> Result<
     let bytes = save(&book)?;
     let parts = ind::zip_parts(&bytes)?;
     let xml = xml_attrs(&parts, kind).ok_or("protection-element-missing")?;
+    let part = part_of(&parts, kind).ok_or("protection-part-missing")?;
+    if std::str::from_utf8(&part).is_err() {
+        ok = false;
+        fail(out, "c15-xml-part-not-utf8", part_name(kind).to_string());
+    }
+    out.count(if kind == "sheet" { "xmlpart.sheet-part-sent" } else { "xmlpart.workbook-part-sent" });
+    out.count(&format!("xmlpart.kind.{}", kind));
     let ns = names(kind);
     let get = |n: &str| xml.iter().find(|a| a.0 == n).map(|a| a.1.clone()).unwrap_or_default();
     if get(ns[0]) != mem.alg || get(ns[1]) != mem.hash || get(ns[2]) != mem.salt || get(ns[3]) != mem.spin.to_string() {
@@ -270,7 +312,7 @@ fn run_set(out: &mut Out, line: &str, kind: &str, pw: &str, pre: u32) -> Result<
     if ok {
         out.oracle_ok();
     }
-    Ok(SetResult { mem, xml, reload })
+    Ok(SetResult { mem, xml, reload, part })
 }
 
 fn show_xml(xml: &[(String, String)]) -> String {
@@ -280,7 +322,7 @@ fn show_xml(xml: &[(String, String)]) -> String {
 /// Replay of a lone `stored` line: the salt cannot be forced through the public setter, so the
 /// object is assembled with the public field setters from the hook's hash, then really saved,
 /// scanned and reloaded.
-fn stored_replay(kind: &str, pw: &str, pre: u32, salt64: &str) -> Result<String, String> {
+fn stored_replay(out: &mut Out, line: &str, kind: &str, pw: &str, pre: u32, salt64: &str, sent: Option<Vec<u8>>) -> Result<String, String> {
     let salt = ind::unb64(salt64).ok_or("bad-salt")?;
     let h = umya_spreadsheet::helper::crypt::verif_convert_password_to_hash(pw, "SHA-512", &salt, 100000);
     let hash64 = ind::b64(&h);
@@ -311,7 +353,21 @@ fn stored_replay(kind: &str, pw: &str, pre: u32, salt64: &str) -> Result<String,
     let xml = xml_attrs(&parts, kind).ok_or("protection-element-missing")?;
     let back = umya_spreadsheet::reader::xlsx::read_reader(Cursor::new(bytes), true).map_err(|e| format!("reload: {:?}", e))?;
     let reload = observe(&back, kind).ok_or("protection-lost-on-reload")?;
-    Ok(format!("mem={} xml={} reload={}", mem.show(), show_xml(&xml), reload.show()))
+    let base = format!("mem={} xml={} reload={}", mem.show(), show_xml(&xml), reload.show());
+    match sent {
+        None => Ok(base),
+        Some(sent) => {
+            // the part in the line is the one the original run saved; the one assembled here must be the same characters
+            let part = part_of(&parts, kind).ok_or("protection-part-missing")?;
+            if part == sent {
+                out.oracle_ok();
+            } else {
+                out.oracle_fail(Fail::new("c15-xml-part-mismatch").with("op", line).with("kind", kind).with("pw", pw).with("detail", "the part in the replayed line differs from the part saved now"));
+            }
+            out.count(if kind == "sheet" { "xmlpart.sheet-part-sent" } else { "xmlpart.workbook-part-sent" });
+            Ok(format!("{} part={}", base, part_expect(kind, &mem, post)))
+        }
+    }
 }
 
 fn pw_of(h: &str) -> String {
@@ -360,8 +416,8 @@ pub fn exec(out: &mut Out, line: &str) -> (String, bool, Vec<(String, String)>) 
                         "ok alg={} spin={} raw={} saltlen={} hashlen={} names={}",
                         r.mem.alg, r.mem.spin, r.mem.raw, r.mem.salt.len(), r.mem.hash.len(), nm.join(",")
                     );
-                    let derived = format!("c15 stored {} {} {} {}", kind, a[3], pre, hex(&r.mem.salt));
-                    let dreply = format!("mem={} xml={} reload={}", r.mem.show(), show_xml(&r.xml), r.reload.show());
+                    let derived = format!("c15 stored {} {} {} {} {}", kind, a[3], pre, hex(&r.mem.salt), hexb(&r.part));
+                    let dreply = format!("mem={} xml={} reload={} part={}", r.mem.show(), show_xml(&r.xml), r.reload.show(), part_expect(kind, &r.mem, pre / 3));
                     (reply, true, vec![(derived, dreply)])
                 }
                 Ok(Err(e)) => {
@@ -374,13 +430,14 @@ pub fn exec(out: &mut Out, line: &str) -> (String, bool, Vec<(String, String)>) 
                 }
             }
         }
-        "stored" if a.len() == 6 => {
+        "stored" if a.len() == 6 || a.len() == 7 => {
             // only reached in replay mode (in a normal run the line is emitted together with its reply)
             let kind = a[2];
             let pw = pw_of(a[3]);
             let pre: u32 = a[4].parse().unwrap_or(0);
             let salt64 = pw_of(a[5]);
-            match guard(|| stored_replay(kind, &pw, pre, &salt64)) {
+            let sent = a.get(6).map(|h| unhex(h));
+            match guard(|| stored_replay(out, line, kind, &pw, pre, &salt64, sent)) {
                 Ok(Ok(s)) => (s, true, vec![]),
                 Ok(Err(e)) => (format!("err {}", e.replace(' ', "_")), false, vec![]),
                 Err(_) => ("panic".into(), false, vec![]),
